@@ -8,7 +8,8 @@ RULE = ("one-step programs: HKDF digest {sha1,sha256,sha512,sha3_256,blake2b:64}
         "L in {0,1,H-1,H,H+1,2H,2H+1,254H+1,255H-1,255H} equal RFC 5869, L in {255H+1,256H} and wrong PRK buffer sizes must panic; PBKDF2 PRF "
         "{HMAC-SHA1,-SHA256,-SHA512} x c {1,2,3,4,5,10,100,1000} x dkLen {1,H-1,H,H+1,2H,2H+1,3H+7} x 3 passwords x 3 salts vs hashlib.pbkdf2_hmac, "
         "c = 0 must panic; scrypt every log2N 1..=10 x r 1..=8 x p 1..=4 x dkLen {1,31,32,33,63,64,65,130} and every dkLen 1..=130 on three parameter "
-        "sets vs hashlib.scrypt, parameter constructor on every RFC 7914 constraint boundary; non-trivial = every case; distinct = program text")
+        "sets vs hashlib.scrypt, parameter constructor on every RFC 7914 constraint boundary; non-trivial = every case; distinct = program text"
+        " Also: HKDF handed digest objects that were fed / fed and finalised, with salts and PRKs up to 2B+7 bytes; PBKDF2 with an Hmac that was fed and reset, twice in a row on one Hmac, and with more than 65535 output blocks; the corpus again on the checked-arithmetic build and (SHA-256 / BLAKE2b / scrypt) on the vector builds.")
 ASSUMPTIONS = ["hashlib.pbkdf2_hmac and hashlib.scrypt (OpenSSL) are correct", "RFC 5869 python model over the RFC 2104 model (validated on RFC 5869 A.1, RFC 4231 #2, RFC 6070 #2, RFC 7914 #2)",
                "password/salt/IKM/info content from the pattern alphabet"]
 
